@@ -227,6 +227,11 @@ pub(crate) struct JumpControlInfo {
     pub(crate) jumps: Vec<JumpRecord>,
     current_open_environments_count: u32,
     pub(crate) finally_throw: Option<(u32, u32)>,
+    /// A try statement with a catch block and no finally block.
+    ///
+    /// Jumps that leave it continue at a trampoline behind the statement, see
+    /// [`ByteCompiler::pop_try_catch_control_info()`].
+    try_catch: bool,
 }
 
 bitflags! {
@@ -265,6 +270,7 @@ impl JumpControlInfo {
             jumps: Vec::new(),
             current_open_environments_count,
             finally_throw: None,
+            try_catch: false,
         }
     }
 
@@ -318,6 +324,10 @@ impl JumpControlInfo {
 
     pub(crate) const fn start_address(&self) -> Address {
         self.start_address
+    }
+
+    pub(crate) const fn is_try_catch_block(&self) -> bool {
+        self.try_catch
     }
 
     pub(crate) const fn is_loop(&self) -> bool {
@@ -539,6 +549,53 @@ impl ByteCompiler<'_> {
         }
     }
 
+    /// Pops and handles the info for a `for-in`/`for-of` loop's `JumpControlInfo`.
+    ///
+    /// Returns the jump records of `break`, `continue` and `return` statements that leave an
+    /// enclosing statement through this loop: they have to close this loop's iterator and go on
+    /// with the clean-up of the statements around it. That code must run outside the loop's
+    /// handler range, see [`Self::emit_loop_exit_trampolines()`].
+    ///
+    /// # Panic
+    ///  - Will panic if `jump_info` stack is empty.
+    ///  - Will panic if popped `JumpControlInfo` is not for a loop block.
+    #[must_use]
+    pub(crate) fn pop_iterator_loop_control_info(&mut self) -> Vec<JumpRecord> {
+        assert!(!self.jump_info.is_empty());
+        let info = self.jump_info.pop().expect("no jump information found");
+
+        assert!(info.is_loop());
+
+        let start_address = info.start_address();
+        let mut leaving = Vec::new();
+        for jump_record in info.jumps {
+            if jump_record.actions.is_empty() {
+                jump_record.perform_actions(start_address, self);
+            } else {
+                leaving.push(jump_record);
+            }
+        }
+        leaving
+    }
+
+    /// Emits, behind a `for-in`/`for-of` loop, the landing pads of the jumps that leave an
+    /// enclosing statement through the loop.
+    pub(crate) fn emit_loop_exit_trampolines(&mut self, leaving: Vec<JumpRecord>) {
+        if leaving.is_empty() {
+            return;
+        }
+
+        // Skip the landing pads when falling through.
+        let fallthrough = self.jump();
+
+        for jump_record in leaving {
+            self.patch_jump(jump_record.label);
+            jump_record.perform_actions(Self::DUMMY_ADDRESS, self);
+        }
+
+        self.patch_jump(fallthrough);
+    }
+
     // ---- `SwitchStatement` `JumpControlInfo` methods ---- //
 
     /// Pushes a `SwitchStatement`'s `JumpControlInfo` on to the `jump_info` stack.
@@ -574,6 +631,45 @@ impl ByteCompiler<'_> {
     }
 
     // ---- `TryStatement`'s `JumpControlInfo` methods ---- //
+
+    /// Pushes the `JumpControlInfo` of a `TryStatement` that has a catch block and no finally block.
+    pub(crate) fn push_try_catch_control_info(&mut self, use_expr: bool) {
+        let mut new_info = JumpControlInfo::new(self.current_open_environments_count);
+        new_info.try_catch = true;
+
+        self.push_control_info(new_info, use_expr);
+    }
+
+    /// Pops the info of a try statement without a finally block.
+    ///
+    /// A `break`, `continue` or `return` that leaves the statement still has to clean up after the
+    /// statements around it (close their iterators, pop their environments). That code must not
+    /// run inside the handler range of this try block, otherwise an exception thrown by an outer
+    /// iterator's `return` method would be caught by this statement's catch block. The jumps land
+    /// here, behind the statement, and continue with their remaining actions.
+    ///
+    /// # Panic
+    ///  - Will panic if popped `JumpControlInfo` is not for a try block.
+    pub(crate) fn pop_try_catch_control_info(&mut self) {
+        assert!(!self.jump_info.is_empty());
+        let info = self.jump_info.pop().expect("no jump information found");
+
+        assert!(info.is_try_catch_block());
+
+        if info.jumps.is_empty() {
+            return;
+        }
+
+        // Skip the jump-record handlers when falling through.
+        let fallthrough = self.jump();
+
+        for jump_record in info.jumps {
+            self.patch_jump(jump_record.label);
+            jump_record.perform_actions(Self::DUMMY_ADDRESS, self);
+        }
+
+        self.patch_jump(fallthrough);
+    }
 
     /// Pushes a `TryStatement`'s `JumpControlInfo` onto the `jump_info` stack.
     pub(crate) fn push_try_with_finally_control_info(
